@@ -85,7 +85,7 @@ func runC10(r *Run) {
 	// fragment, 2 a data frame with part of its payload, 3 a ping with part of its
 	// payload, 4 writing the pong for a ping (the peer does not read), 5 waiting
 	// for the frame lock to write that pong (a Write is blocked in the transport)
-	rconc := t.Weighted(1, 1, 1, 2, 2, 2)
+	rconc := t.Weighted(1, 1, 1, 2, 2, 2, 2, 1)
 
 	sig := fmt.Sprintf("flavour=%v,terminal=%d", pingFlavour, terminal)
 	r.Class = fmt.Sprintf("%s/cli%v/d%v/n%d", sig, rc.Opts.LibClient, rc.Neg.Deflate, nOps/4)
@@ -321,6 +321,16 @@ func runC10(r *Run) {
 				case 3:
 					b := peer.Encode(wsref.Frame{Fin: true, Opcode: wsref.OpPing, Payload: []byte("stalled ping payload")})
 					peer.Inject(b[:len(b)-1-int(termDelay/time.Second)%7])
+				case 6:
+					// a complete control frame arrives and is dealt with (the ping gets its
+					// pong), then nothing more: the read waits for the next frame when its
+					// context ends
+					peer.Inject(peer.Encode(wsref.Frame{Fin: true, Opcode: wsref.OpPing, Payload: []byte("handled, then silence")}))
+				case 7:
+					// the same inside a fragmented message, with an unsolicited pong
+					peer.Inject(peer.Encode(wsref.Frame{Fin: false, Opcode: wsref.OpBinary, Payload: []byte("first fragment")},
+						wsref.Frame{Fin: true, Opcode: wsref.OpPong, Payload: []byte("nobody asked")},
+						wsref.Frame{Fin: true, Opcode: wsref.OpPing, Payload: []byte("ping between fragments")}))
 				case 4, 5:
 					r.S.ParkE("a.prog.drain", func() bool { return rc.Lib.Out().Buffered() == 0 }, nil)
 					paused = true
